@@ -179,6 +179,16 @@ func c15GenAlone(root, rel string, includeVersion bool) (string, bool) {
 	return string(out), true
 }
 
+var c15Fixed = []struct {
+	workers int
+	files   [][2]string
+}{
+	{1, [][2]string{{"a.templ", "unparseable"}, {"b.templ", "good"}, {"c.templ", "plain"}}},
+	{2, [][2]string{{"a.templ", "unparseable"}, {"b.templ", "badgo"}, {"c.templ", "good"}, {"d/x.templ", "good"}}},
+	{3, [][2]string{{"a.templ", "badgo"}, {"b.templ", "unparseable"}, {"c.templ", "unparseable"}, {"y/k.templ", "plain"}, {"z.templ", "good"}}},
+	{1, [][2]string{{"m/a.templ", "good"}, {"m/b.templ", "badgo"}, {"m/c.templ", "good"}, {"n.templ", "unparseable"}, {"o.templ", "good"}}},
+}
+
 func runC15(e *emitter, tier string, seed uint64) {
 	r := &rng{s: seed}
 	root := os.Getenv("VERIF_ROOT")
@@ -209,6 +219,16 @@ func runC15(e *emitter, tier string, seed uint64) {
 		spell := 0
 		if r.chance(1, 2) {
 			spell = 1 + r.intn(4)
+		}
+		// fixed trees first: as many files that cannot be generated as there are workers, followed (in walk order) by
+		// files that can — every one of them must still be generated and the run must end
+		if i < len(c15Fixed) {
+			tree, age = c15Tree{}, map[string]time.Duration{}
+			for _, f := range c15Fixed[i].files {
+				id := c15Ident(r)
+				tree[f[0]] = fmt.Sprintf(map[string]string{"good": c15Good, "plain": c15GoodNoExpr, "unparseable": c15Unparseable, "badgo": c15BadGo}[f[1]], id, id)
+			}
+			workers, keep, lazy, spell = c15Fixed[i].workers, false, false, 0
 		}
 		if !e.mine(fmt.Sprintf("gen %d", i)) {
 			continue
